@@ -162,7 +162,7 @@ def run_regressions(rep: Reporter, pool, prop: str) -> int:
         body = read_replay(path)
         hs = body.get("python_hashseed")
         if hs not in pool.hashseeds:
-            hs = None
+            hs = pool.hashseeds[0]
         res = run_case(pool, body["engine"], body["case"], body.get("func", "run_case"), hs,
                        limit_s=body.get("limit_s", 300))
         n += 1
